@@ -8,7 +8,9 @@
 //
 // ops (one scenario per line; every op is self-contained, so any sub-sequence of a case replays):
 //
-//	dial base=<id|none> der=<tokens|-> n=<k> tr=<same|new> fresh=<0|1> faults=<sched|-> srv=<cfg> seed=<s>
+//	dial base=<id|none> der=<tokens|-> n=<k> tr=<same|new> fresh=<0|1> faults=<sched|-> srv=<cfg> seed=<s> [sni=<l1>.<l2>…]
+//	  (sni: the length of the server name dial i asks for, 0 = "localhost": a client talks to more than one host, so the
+//	   ClientHello — and with it everything laid out relative to its length — differs from dial to dial)
 //	  => S[ <spec facts> ] D[ i=1 <first-flight facts> out=<outcome> … ] S[ … ] D[ i=2 … ] S[ … ] …
 //	cmp ccfg=<id> faults=<sched|-> srv=<cfg> seed=<s>
 //	  => A[ … ] B[ … ] same=<0|1>          (A: plain Transport, B: UTransport{QUICSpec: nil}, same random stream)
@@ -17,6 +19,7 @@ package dial
 import (
 	"context"
 	"crypto/sha256"
+	"crypto/x509"
 	"encoding/hex"
 	"errors"
 	"fmt"
@@ -647,6 +650,54 @@ type scen struct {
 	wg      sync.WaitGroup
 	srvData chan string // per accepted connection: "<len>:<hash of what the server read>"
 	seed    uint64
+	baseTLS *tls.Config // the client's TLS config as e2e built it (server name "localhost")
+	sni     []int       // per dial: length of the server name to ask for (0 / missing: "localhost")
+}
+
+// sniName: a syntactically valid host name of exactly n bytes (n >= 3), labels of at most 16 letters.
+func sniName(n int) string {
+	b := make([]byte, n)
+	for i := range b {
+		b[i] = byte('a' + i%23)
+		if i%17 == 16 && i < n-2 {
+			b[i] = '.'
+		}
+	}
+	return string(b)
+}
+
+// tlsFor: the client's TLS config with another server name. The test certificate names "localhost" only, so the chain
+// is verified here against that name (same roots, same clock) instead of by crypto/tls.
+func tlsFor(base *tls.Config, name string) *tls.Config {
+	c := base.Clone()
+	c.ServerName = name
+	c.InsecureSkipVerify = true
+	roots, now := base.RootCAs, base.Time
+	c.VerifyPeerCertificate = func(raw [][]byte, _ [][]*x509.Certificate) error {
+		if len(raw) == 0 {
+			return errors.New("no certificate")
+		}
+		inter := x509.NewCertPool()
+		var leaf *x509.Certificate
+		for i, r := range raw {
+			crt, err := x509.ParseCertificate(r)
+			if err != nil {
+				return err
+			}
+			if i == 0 {
+				leaf = crt
+			} else {
+				inter.AddCert(crt)
+			}
+		}
+		opts := x509.VerifyOptions{Roots: roots, Intermediates: inter, DNSName: "localhost"}
+		if now != nil {
+			opts.CurrentTime = now()
+		}
+		_, err := leaf.Verify(opts)
+		return err
+	}
+	return c
 }
 
 func startScen(spec *quic.QUICSpec, plain bool, ccfg *quic.Config, faults []e2e.Fault, sc srvCfg, seed uint64) (*scen, error) {
@@ -941,6 +992,14 @@ func (s *scen) oneDial(i int) string {
 	cliConns := len(s.clog.connsFrom(0))
 	ctx, cancel := context.WithTimeout(context.Background(), 60*time.Second)
 	defer cancel()
+	if s.baseTLS == nil {
+		s.baseTLS = env.ClientTLS
+	}
+	if i-1 < len(s.sni) && s.sni[i-1] >= 3 {
+		env.ClientTLS = tlsFor(s.baseTLS, sniName(s.sni[i-1]))
+	} else {
+		env.ClientTLS = s.baseTLS
+	}
 	conn, err := env.Dial(ctx)
 	out := canonErr(err)
 	if err != nil && os.Getenv("DIAL_DEBUG_ERR") != "" {
@@ -1065,6 +1124,16 @@ func execOp(op string) string {
 				return "skip"
 			}
 		}
+		var sni []int
+		if v := a["sni"]; v != "" {
+			for _, x := range strings.Split(v, ".") {
+				l, err := strconv.Atoi(x)
+				if err != nil || l < 0 || l > 200 {
+					return "skip"
+				}
+				sni = append(sni, l)
+			}
+		}
 		var res []string
 		run := func() {
 			seedAll(seed)
@@ -1089,6 +1158,7 @@ func execOp(op string) string {
 					s, err = startScen(spec, false, &quic.Config{}, faults, sc, seed)
 					if s != nil {
 						s.fan = true
+						s.sni = sni
 					}
 					if err != nil {
 						res = append(res, "E:setup")
@@ -1411,6 +1481,23 @@ func genDer(r *vh.Rand, base string) string {
 	return strings.Join(toks, ",")
 }
 
+// genSNI: server names of different lengths for the n dials of one op (" sni=…"), or "" (every dial asks for "localhost")
+func genSNI(r *vh.Rand, n int, pct int) string {
+	if !r.Chance(pct) {
+		return ""
+	}
+	ls := []int{0, 4, 25, 40, 71, 120}
+	for i := len(ls) - 1; i > 0; i-- {
+		j := r.Intn(i + 1)
+		ls[i], ls[j] = ls[j], ls[i]
+	}
+	var out []string
+	for i := 0; i < n; i++ {
+		out = append(out, strconv.Itoa(ls[i%len(ls)]))
+	}
+	return " sni=" + strings.Join(out, ".")
+}
+
 func (rn *runner) GenOp(r *vh.Rand, i int) string {
 	seed := r.U64() >> 16
 	srv := srvNames[r.Pick(36, 10, 7, 5, 7, 5, 6, 6, 12, 6)]
@@ -1436,7 +1523,10 @@ func (rn *runner) GenOp(r *vh.Rand, i int) string {
 			der += "," + []string{"tok:16", "pn:7", "shuf", "scid:8", "dcid:12", "pnl:2", "rot:3"}[r.Intn(7)]
 		}
 		fsrv := []string{"def", "retry", "v2", "nopmtud", "smallwin"}[r.Pick(50, 20, 10, 10, 10)]
-		return fmt.Sprintf("dial base=%s der=%s n=%d tr=%s fresh=0 faults=%s srv=%s seed=%d", base, der, 1+r.Intn(2), []string{"same", "new"}[r.Intn(2)], losses[r.Intn(len(losses))], fsrv, seed)
+		// one plan value for 1..3 dials; mostly to hosts whose names differ in length, so that the flight has to be laid
+		// out anew for a ClientHello of another length
+		fn := 1 + r.Pick(30, 40, 30)
+		return fmt.Sprintf("dial base=%s der=%s n=%d tr=%s fresh=0 faults=%s srv=%s seed=%d%s", base, der, fn, []string{"same", "new"}[r.Intn(2)], losses[r.Intn(len(losses))], fsrv, seed, genSNI(r, fn, 75))
 	}
 	n := 1 + r.Pick(40, 35, 25)
 	tr := []string{"same", "new"}[r.Pick(60, 40)]
@@ -1444,5 +1534,5 @@ func (rn *runner) GenOp(r *vh.Rand, i int) string {
 	if r.Chance(4) {
 		return fmt.Sprintf("dial base=none der=- n=%d tr=%s fresh=0 faults=%s srv=%s seed=%d", n, tr, genFaults(r), srv, seed)
 	}
-	return fmt.Sprintf("dial base=%s der=%s n=%d tr=%s fresh=%d faults=%s srv=%s seed=%d", base, genDer(r, base), n, tr, fresh, genFaults(r), srv, seed)
+	return fmt.Sprintf("dial base=%s der=%s n=%d tr=%s fresh=%d faults=%s srv=%s seed=%d%s", base, genDer(r, base), n, tr, fresh, genFaults(r), srv, seed, genSNI(r, n, 30))
 }
